@@ -238,16 +238,24 @@ type Env struct {
 // WatchIngest records event-time ingestion instants (no hook in /repo: the scheduler sees the
 // grant of the mutex acquisition at the top of Watermark.UpdateEventTime).
 func (e *Env) WatchIngest() {
+	// One ingestion = one stay of a goroutine inside Watermark.UpdateEventTime (and what it calls
+	// in watermark.go), whatever yield points that stay passes — its first lock today, but a
+	// changed locking scheme or a statement-level build must not blind the observation.
+	inside := map[int]bool{}
 	e.Sim.OnGrant = func(step, label int, site string) {
-		if !strings.HasPrefix(site, "window/watermark.go") {
+		fn := site[strings.LastIndex(site, ":")+1:]
+		wm := strings.HasPrefix(site, "window/watermark.go")
+		if wm && (fn == "UpdateEventTime" || (inside[label] && fn == "sendWatermarkLocked")) {
+			if !inside[label] {
+				inside[label] = true
+				e.IngestT = append(e.IngestT, e.Sim.Now())
+				e.IngestEnd = append(e.IngestEnd, e.Sim.Now())
+				e.Logf("ingest #%d", len(e.IngestT))
+			}
 			return
 		}
-		switch {
-		case strings.HasSuffix(site, ":lock:UpdateEventTime"):
-			e.IngestT = append(e.IngestT, e.Sim.Now())
-			e.IngestEnd = append(e.IngestEnd, e.Sim.Now())
-			e.Logf("ingest #%d", len(e.IngestT))
-		case strings.HasSuffix(site, ":lock:IsEventTimeLate"):
+		inside[label] = false
+		if wm && fn == "IsEventTimeLate" {
 			if n := len(e.IngestEnd); n > 0 {
 				e.IngestEnd[n-1] = e.Sim.Now() // the lateness decision of the row being ingested
 			}
